@@ -46,7 +46,7 @@ NONFIN == 1999999999
 (* operations whose observation went through floating point division / sqrt / exp *)
 FloatOps == {"column_mean", "mean", "var", "std", "cov", "div", "div_mut", "div_scalar", "div_scalar_mut",
              "scale_mut", "softmax_mut", "v_mean", "v_var", "v_std", "v_div", "v_div_mut", "v_div_scalar",
-             "v_div_scalar_mut", "norm_half", "v_norm_half"}
+             "v_div_scalar_mut", "norm_half", "v_norm_half", "norm_neg", "v_norm_neg"}
 AgreeTol == 2          \* "up to rounding": two quantisation steps
 
 SeqClose(a, b, tol) ==
